@@ -107,6 +107,18 @@ Theorem C30_cursor_transparent_functional :
 Proof. exact cursor_plain_functional. Qed.
 Print Assumptions C30_cursor_transparent_functional.
 
+(** whatever the history: a cached statement is the parse of the bound text of an earlier call with
+    that text - this, with the next theorem, is what a hit executes instead of the current call *)
+Theorem C30_cache_entries_from_history :
+  forall (stmt D res : Type) (parse : text -> option stmt) (kind : stmt -> skind)
+         (exec : D -> stmt -> D * option res) (cap : nat)
+         (calls : list (text * option (list pyval))) (d : D),
+    let '(_, _, c') := run_cursor stmt D res parse kind exec cap d new_cursor calls in
+    forall (k : text) (s : stmt), In (k, s) (cache c') ->
+      exists (ps : option (list pyval)) (t : text), In (k, ps) calls /\ process k ps = Some t /\ parse t = Some s.
+Proof. exact cache_entries_from_history. Qed.
+Print Assumptions C30_cache_entries_from_history.
+
 (** a hit does not look at the parameters at all *)
 Theorem C30_hit_ignores_params :
   forall (stmt D res : Type) (parse : text -> option stmt) (kind : stmt -> skind)
